@@ -185,7 +185,7 @@ def path_aliases(fn_node) -> Dict[str, ast.expr]:
         x = v
         ok = True
         while isinstance(x, (ast.Attribute, ast.Subscript)):
-            if isinstance(x, ast.Subscript) and not isinstance(x.slice, (ast.Constant, ast.UnaryOp)):
+            if isinstance(x, ast.Subscript) and not isinstance(x.slice, (ast.Constant, ast.UnaryOp, ast.Name)):
                 ok = False
             x = x.value
         if ok and isinstance(x, ast.Name) and not isinstance(v, ast.Name):
